@@ -31,8 +31,12 @@
      - [Ret false] only needs some [Dead] node; transient phases of the other
        nodes are allowed then (abandoned after cancellation);
      - [pres] (result of a push) can get more constructors.
-   Mount (registry.Mounter destinations: MountFrom / OnMounted) is not modelled:
-   its events are rejected. *)
+   Mount (registry.Mounter destinations, mountOrCopyNode): with [c_mount] an uncached
+   non-manifest node goes MountFrom -> Mount per candidate repository -> mounted
+   (OnMounted) | skipped (next candidate) | fallback on the last candidate (PreCopy,
+   src.Fetch inside Mount, Close, Mount returns, PostCopy).  Not modelled: the
+   ReferencePusher root falling back inside Mount (PreCopy answers SkipNode there and
+   the real Mount fails). *)
 From Oras Require Import Base.Prelude.
 Local Open Scope nat_scope.
 
@@ -58,11 +62,13 @@ Record cfg := mkCfg {
   c_K : nat;            (* effective concurrency (defaultConcurrency when <= 0) *)
   c_mode : mode;
   c_root : node;
+  c_mount : bool;       (* the destination is a registry.Mounter and MountFrom is set *)
   c_cached0 : list node (* proxy cache at the start of copyGraph (resolveRoot through a ReferenceFetcher
                            caches the resolved manifest) *)
 }.
 
 Inductive pres := POk | PExists.                       (* dst.Push: nil | ErrAlreadyExists *)
+Inductive mres := MMounted | MSkipped | MCopied.       (* Mount: mounted | getContent said "skip source" | content uploaded *)
 Inductive cbk := CPre | CPost | CSkip | CMounted | CMountFrom.
 
 Inductive event :=
@@ -75,6 +81,8 @@ Inductive event :=
 | PuE (n : node) (ref : bool) (r : pres)
 | Cb (k : cbk) (n : node)              (* user callback entered (it returns nil) *)
 | CbFail (k : cbk) (n : node)          (* user callback entered and returns an error *)
+| MtB (n : node)                       (* dst.Mount called (one candidate repository) *)
+| MtE (n : node) (r : mres)            (* dst.Mount returned *)
 | TagB (n : node)                      (* dst.Tag(root, dstRef) called *)
 | TagE (n : node)                      (* dst.Tag returned nil *)
 | Ret (ok : bool).                     (* Copy / CopyGraph returned nil (true) or an error (false) *)
@@ -90,6 +98,10 @@ Inductive phase :=
 | Pushing (sk rd : bool)    (* push in flight; rd: a source reader is open across the push *)
 | Closing (sk : bool)       (* push done, reader still open *)
 | TagP0 (sk : bool) | TagP1 (sk : bool)  (* root of a Tagger copy: Tag pending / in flight *)
+| MtRdy                     (* MountFrom answered; next: Mount, or PreCopy when there is no candidate *)
+| Mounting                  (* Mount in flight *)
+| MtPre | MtF1 | MtF2 | MtC (* last candidate falls back: PreCopy done / src.Fetch called / reader open / closed *)
+| MountedP                  (* mounted: OnMounted pending *)
 | PostP                     (* PostCopy pending *)
 | Done
 | Dead.
@@ -127,10 +139,13 @@ Definition active_ph (p : phase) : bool :=
   match p with Idle | Waiting | Done | Dead => false | _ => true end.
 (* a source read is in flight: Fetch called, reader not yet closed *)
 Definition src_ph (p : phase) : bool :=
-  match p with MF1 | MF2 | F1 _ | F2 _ | Pushing _ true | Closing _ => true | _ => false end.
+  match p with MF1 | MF2 | F1 _ | F2 _ | Pushing _ true | Closing _ | MtF1 | MtF2 => true | _ => false end.
 (* a destination operation is in flight *)
 Definition dst_ph (p : phase) : bool :=
-  match p with ExQ _ | Pushing _ _ | TagP1 _ => true | _ => false end.
+  match p with
+  | ExQ _ | Pushing _ _ | TagP1 _ | Mounting | MtPre | MtF1 | MtF2 | MtC => true
+  | _ => false
+  end.
 
 Definition count (f : phase -> bool) (g : graph) (st : state) : nat :=
   length (filter (fun n => f (ph st n)) (seq 0 (g_n g))).
@@ -152,12 +167,24 @@ Definition dispatched (g : graph) (c : cfg) (st : state) (n : node) : bool :=
 Definition set_ph (st : state) (n : node) (p : phase) : state :=
   mkState (upd (ph st) n p) (dst st) (cached st) (tag st) (returned st).
 
+(* mountOrCopyNode tries to mount: Mounter destination with MountFrom, blob read from the source *)
+Definition mount_applies (g : graph) (c : cfg) (st : state) (n : node) : bool :=
+  c_mount c && negb (g_ismf g n) && negb (memb n (cached st)).
+
 (* user callback k entered on node n: guard and next phase (shared by Cb and CbFail) *)
 Definition cb_next (g : graph) (c : cfg) (st : state) (k : cbk) (n : node) : option phase :=
   match k, ph st n with
   | CPre, Waiting =>
       if forallb (fun s => is_done (ph st s)) (succ' g n) && Nat.ltb (active g st) (c_K c)
+         && negb (mount_applies g c st n)
       then Some (Rdy false) else None
+  | CMountFrom, Waiting =>
+      if forallb (fun s => is_done (ph st s)) (succ' g n) && Nat.ltb (active g st) (c_K c)
+         && mount_applies g c st n
+      then Some MtRdy else None
+  | CPre, MtRdy => Some (Rdy false)
+  | CPre, Mounting => Some MtPre
+  | CMounted, MountedP => Some Done
   | CPost, PostP => Some Done
   | CSkip, SkipP => Some (if root_tagger c n then TagP0 true else Done)
   | _, _ => None
@@ -191,18 +218,21 @@ Definition step (g : graph) (c : cfg) (st : state) (e : event) : option state :=
       match ph st n with
       | NeedFetch => if memb n (cached st) then None else Some (set_ph st n MF1)
       | Rdy sk => if memb n (cached st) then None else Some (set_ph st n (F1 sk))
+      | MtPre => if memb n (cached st) then None else Some (set_ph st n MtF1)
       | _ => None
       end
   | SFE n =>
       match ph st n with
       | MF1 => Some (set_ph st n MF2)
       | F1 sk => Some (set_ph st n (F2 sk))
+      | MtF1 => Some (set_ph st n MtF2)
       | _ => None
       end
   | SFC n =>
       match ph st n with
       | MF2 => Some (mkState (upd (ph st) n Waiting) (dst st) (n :: cached st) (tag st) (returned st))
       | Closing sk => Some (set_ph st n (after_push c n sk))
+      | MtF2 => Some (set_ph st n MtC)
       | _ => None
       end
   | PuB n ref =>
@@ -239,6 +269,22 @@ Definition step (g : graph) (c : cfg) (st : state) (e : event) : option state :=
       match cb_next g c st k n with
       | Some _ => Some (set_ph st n Dead)
       | None => None
+      end
+  | MtB n =>
+      match ph st n with
+      | MtRdy => Some (set_ph st n Mounting)
+      | _ => None
+      end
+  | MtE n r =>
+      match ph st n, r with
+      | Mounting, MSkipped => Some (set_ph st n MtRdy)
+      | Mounting, MMounted =>
+          if has g (dst st) n then None
+          else Some (mkState (upd (ph st) n MountedP) (n :: dst st) (cached st) (tag st) (returned st))
+      | MtC, MCopied =>
+          if has g (dst st) n then None
+          else Some (mkState (upd (ph st) n (after_push c n false)) (n :: dst st) (cached st) (tag st) (returned st))
+      | _, _ => None
       end
   | TagB n =>
       match ph st n with
